@@ -12,6 +12,8 @@ SIG_POS_ORDER = "sdn.parse.positional-map.uses-port-order-of-first-use"
 SIG_TOP_CLIMB = "sdn.parse.top.climbs-one-level-only"
 SIG_GLOB = "sdn.parse.rejects.glob-characters-in-escaped-identifier"
 
+SIG_ASC = "sdn.parse.ascending-range.read-as-descending"
+
 SIG_C04_EMPTY_BB = "compose-then-parse.rejects.portless-primitive-written-as-empty-celldefine-module"
 SIG_C04_ASSIGN = "compose.raises.assign-wider-than-one-bit"
 SIG_C04_ASSIGN_SPLIT = "compose.raises.assign-over-several-cables-after-flatten"
@@ -75,6 +77,18 @@ def pos_order_victims(design):
             if it["t"] == "inst" and it["map"] == "pos" and it["mod"] in bad:
                 out.append((m["name"], it["name"]))
     return out
+
+
+def order_differs(design):
+    """some module's ports were created (by a forward named map) in an order other than the declared one: the
+    unrepaired reader keeps that order (visible to positional maps only), the model the declared order"""
+    mods = _mods(design)
+    co = creation_order(design)
+    return any(co.get(n, []) != [p["name"] for p in m["ports"]] for n, m in mods.items())
+
+
+def corr_sig_c06(design):
+    return SIG_POS_ORDER if order_differs(design) else None
 
 
 def neutralise_pos_order(design):
@@ -300,7 +314,35 @@ def neutralise_wide_assign(design):
     return d
 
 
+def has_asc(design):
+    return any(m.get("asc") for m in design["modules"])
+
+
+def neutralise_asc(design):
+    """the design as the reader understands it: every range descending, indices unchanged"""
+    d = copy.deepcopy(design)
+    for m in d["modules"]:
+        if m.get("asc"):
+            m["asc"] = []
+            def fix(a):
+                if a[0] == "part" and a[2] < a[3]:
+                    return ["part", a[1], a[3], a[2]]
+                return a
+            for it in m["body"]:
+                if it["t"] == "assign":
+                    it["l"], it["r"] = fix(it["l"]), fix(it["r"])
+                else:
+                    for c in it["conns"]:
+                        e = c[1]
+                        if isinstance(e, dict):
+                            e["cat"] = [fix(a) for a in e["cat"]]
+                        elif e is not None:
+                            c[1] = fix(e)
+    return d
+
+
 C06_KNOWN = [
+    (SIG_ASC, has_asc, neutralise_asc),
     (SIG_EMPTY_PRIM, lambda d: bool(empty_prims(d)), neutralise_empty_prim),
     (SIG_GLOB, lambda d: bool(glob_names(d)), neutralise_glob),
     (SIG_POS_ORDER, lambda d: bool(pos_order_victims(d)), neutralise_pos_order),
